@@ -42,9 +42,9 @@ TABLE_CFG = "Table_RecordBatchFormat.cfg"
 # general generators avoid the trigger and only a small dedicated class hits it.
 AVOID = {
     # compiled splitter reads the magic byte at absolute offset 16
-    "splitter_mixed_magic": True,
+    "splitter_mixed_magic": False,   # fixed in /repo (cca0b8a): no longer steered around
     # compiled v2 builder rejects a record that makes the batch exactly batch_size
-    "v2_at_limit": True,
+    "v2_at_limit": False,            # fixed in /repo (32763a0)
 }
 
 KV = [-1, 0, 1, 63, 64, 8191, 8192, 70001]
